@@ -518,6 +518,7 @@ type Contract struct {
 	Entry    []GhostStmt
 	Exit     []GhostStmt
 	CallGhost map[string][]GhostStmt // before@pkg.Func / after@pkg.Func
+	NoCall   []string // qualified callees (as in call anchors) the function must not call: syntactic frame obligation
 	NoWrite  []string // parameters / receiver whose reachable backing arrays must not be written in place (memory frame)
 	Modifies []string // nil = default (pointer receiver and pointer params may change); ["nothing"]
 	Options  map[string]string
@@ -579,7 +580,7 @@ type ContractSet struct {
 }
 
 var clauseKW = map[string]bool{"func": true, "assume": true, "pure": true, "pred": true, "axiom": true, "lemma": true, "requires": true,
-	"ensures": true, "loop": true, "property": true, "modifies": true, "nowrite": true, "ghost": true, "option": true, "at": true, "proof": true, "trusted": true, "induction": true, "guarded": true, "end": true, "assert": true, "use": true, "opaque": true, "macro": true, "immutable": true, "fieldpartition": true, "fieldwriters": true}
+	"ensures": true, "loop": true, "property": true, "modifies": true, "nowrite": true, "nocall": true, "ghost": true, "option": true, "at": true, "proof": true, "trusted": true, "induction": true, "guarded": true, "end": true, "assert": true, "use": true, "opaque": true, "macro": true, "immutable": true, "fieldpartition": true, "fieldwriters": true}
 
 var labelRe = regexp.MustCompile(`^([A-Za-z_][A-Za-z0-9_\-]*):\s+(.*)$`)
 
@@ -969,6 +970,12 @@ func (cs *ContractSet) parseFile(fname, data string) error {
 				return werr(fmt.Errorf("nowrite outside func"))
 			}
 			cur.NoWrite = append(cur.NoWrite, strings.Fields(strings.ReplaceAll(rest, ",", " "))...)
+		case "nocall":
+			// nocall pkg.Recv.Method ...: the function (nested literals included) contains no call of these callees
+			if cur == nil {
+				return werr(fmt.Errorf("nocall outside func"))
+			}
+			cur.NoCall = append(cur.NoCall, strings.Fields(strings.ReplaceAll(rest, ",", " "))...)
 		case "option":
 			if cur == nil {
 				return werr(fmt.Errorf("option outside func"))
